@@ -189,7 +189,7 @@ theorem blocked_caller (s : St) (hi : Inv s) (hb : Blocked s) (c : Caller) (hc :
   | rdWait sid w =>
     cases w with
     | false => exact Or.inl ⟨sid, rfl⟩
-    | true => simp [callerStep, hi0] at h0
+    | true => simp [callerStep, hi0, hi.lost] at h0
   | wrBegin =>
     exfalso
     simp only [callerStep, hi0, hl, Option.isNone_none, ite_true] at h0
